@@ -87,7 +87,7 @@ def split_others(m, ndim, rs):
 # ---------------------------------------------------------------------------------------
 # comparison of a projected implementation sketch with the spec
 # ---------------------------------------------------------------------------------------
-def compare(proj, e, Q, tol, worst, eps=0.0, check_inv=True):
+def compare(proj, e, Q, tol, worst, eps=0.0, check_inv=True, tol_inv=None):
   """proj: dict(V (D x k), lam (k,), tail, arg (k,) or None, targ or None)
        lam  eigenvalues of the covariance sketch per slot
        arg  argument the slot's stored inverse root denotes (inv^(-p)); np.inf if inv == 0
@@ -127,13 +127,13 @@ def compare(proj, e, Q, tol, worst, eps=0.0, check_inv=True):
       bad.append(("inverse_root_missing_on_kept_direction", 0.0))
     else:
       A = (V[:, keep] * (arg[keep] - eps)[np.newaxis, :]) @ V[:, keep].T
-      rec("inv_arg", np.abs(A - diag_in(Q, e.ia)).max() / sc)
+      rec("inv_arg", np.abs(A - diag_in(Q, e.ia)).max() / sc, tol_inv or tol)
   if check_inv and proj.get("targ") is not None:
     targ = float(proj["targ"])
     if np.isfinite(targ):
-      rec("inv_tail_arg", abs(targ - eps - e.t) / sc)
+      rec("inv_tail_arg", abs(targ - eps - e.t) / sc, tol_inv or tol)
     else:                            # stored complement root is 0: escaped mass must be 0
-      rec("inv_tail_arg", e.t / sc)
+      rec("inv_tail_arg", e.t / sc, tol_inv or tol)
   return bad
 
 
